@@ -653,7 +653,8 @@ func Replay(v engine.Violation) []string {
 				break
 			}
 			found.Apply(d.w, v.Path[:i+1], res)
-			d.invariant(d.w, v.Path[:i+1], res)
+			p := v.Path[:i+1]
+			engine.GuardInvariant(res, p, func() { d.invariant(d.w, p, res) })
 		}
 		if ok {
 			var sigs []string
